@@ -80,6 +80,29 @@ Theorem logdet_numfield alg (e : sop (R:=R) R) : valid R R numdom (mxdet R) alg 
 Proof. move=> Hv. have [E [U1 U2]] := slogdet_numfield Hv. rewrite -E normrM U1 mul1r /logdet. by rewrite gtr0_norm. Qed.
 End NumField.
 
+(* real operators: the sign is exactly the sign (+1 / -1) of the determinant *)
+Section RealField.
+Variable R : realFieldType.
+Local Existing Instance mcRing.
+Variables kabs ksgn : R -> R.
+Definition realCRing : CRing R := @numCRing R (fun x => x) (fun _ _ => erefl) (fun _ _ => erefl) (fun _ => erefl) (fun _ => erefl).
+Definition realdom : sdom (R:=R) R R := @numdom R (fun x => x) (fun _ _ => erefl) (fun _ _ => erefl) (fun _ => erefl) (fun _ => erefl) kabs ksgn.
+Theorem slogdet_realfield alg (e : sop (R:=R) R) : @valid R (mcRing R) realCRing R R realdom (mxdet R) alg e ->
+  let s := fst (slogdet realdom all_fixed alg e) in
+  let d := \det (\matrix_(i < dim e, j < dim e) @den R (mcRing R) realCRing (to_op e) i j) in
+  s = Num.sg d /\ (s = 1 \/ s = -1) /\ d != 0.
+Proof. move=> Hv s d.
+  have [E [U1 U2]] := @slogdet_numfield R (fun x => x) (fun _ _ => erefl) (fun _ _ => erefl) (fun _ => erefl) (fun _ => erefl) (fun _ => erefl) kabs ksgn alg e Hv.
+  rewrite -/s in E U1. rewrite -/d in E.
+  have Hs : s = Num.sg s by rewrite [LHS]numEsg U1 mulr1.
+  have Hd : Num.sg d = Num.sg s by rewrite -E sgrM (gtr0_sg U2) mulr1.
+  have Hs0 : s != 0 by rewrite -normr_eq0 U1 oner_eq0.
+  split; first by rewrite Hd. split.
+  - rewrite Hs. case: (sgrP s) Hs0 => //; by [left | right].
+  - rewrite -E mulf_neq0 //. by move: U2; rewrite lt0r => /andP [].
+Qed.
+End RealField.
+
 (* the hypotheses on the involution are satisfiable: identity (real operators) ... *)
 Lemma cj_id_ok (R : numFieldType) : let cj := (fun x : R => x) in
   (forall x y, cj (x + y) = cj x + cj y) /\ (forall x y, cj (x * y) = cj x * cj y) /\ (forall x, cj (cj x) = x) /\
